@@ -297,6 +297,8 @@ THEOREMS = [
     "clone_independent_blake", "chunking_blake_variants",
     "skein_machine_ops", "skein_digest", "chunking_skein", "history_refines_skein",
     "clone_independent_skein", "chunking_skein_variants",
+    # source tie: block-buffer / block-padding / digest / cipher as regenerated from the pinned crate sources
+    "source_blockbuffer_match", "source_traits_match",
 ]
 
 PROP = dict(
@@ -305,4 +307,10 @@ PROP = dict(
     extra=extra_C08,
     cfgs_quick=["std-debug", "std-release"],
     cfgs_thorough=["std-debug", "std-release", "nosimd-debug", "nosimd-release"],
+    trusted_extra=[
+        "tools/inventory_blockbuffer.py (translator for block-buffer / block-padding / digest / cipher as pinned in /repo/Cargo.lock and "
+        "found in the cargo registry): its reading table (Rust form -> Lean term, printed in the header of "
+        "lean/CC/Gen/BlockBufferSrc.lean), the prelude combinators chunksExact / chunksExactRem / forChunks / whileLoop, "
+        "`#[cfg(feature = \"block-padding\")]` read as enabled, method resolution through trait bounds, `Clone` = copy; "
+        "the struct invariant buf.length = b, pos <= b, 0 < b < 2^64 assumed in the obligations (8 <= b / 16 <= b for the length paddings)"],
 )
